@@ -16,7 +16,7 @@ pub fn run(m: &Model, ctx: &mut Ctx) {
     ctx.explanation = "C02.sym (sibling agreement): in every pattern match over ASN1Type in the crate, SEQUENCE and SET (and SEQUENCE OF / SET OF) are handled alike — a pattern that names one variant of a pair while its sibling falls through to a wildcard/else is a deviant (the IR shares one payload type per pair, so the only legitimate difference is the set marker). \
 C02.order: every iterator chain rooted at a component list (`.members`, `.options`) in the lexer conversions, linker and both generators uses only order- and cardinality-preserving adaptors; rebuilding pushes are at the end position. \
 C02.kindmap: the ASN.1-kind -> Rust-type tables (constraints_and_type_name, type_to_tokens, format_sequence_or_set_of_item_type, string_type) are extracted per ASN1Type / CharacterStringType variant and compared with ref/asn1kind_to_rasn.json and with each other. \
-C02.wrap: default annotation iff DEFAULT, Box<> at every type-name site under is_recursive, `set` annotation iff Set, SetOf iff SET OF. (Option<> wrapping and list conversions are decided under C05.) \
+C02.defname: the default function named by the annotation, the one generated and the one called by the Default impl are one name (all through default_method_name with the same parent name). C02.wrap: default annotation iff DEFAULT, Box<> at every type-name site under is_recursive, `set` annotation iff Set, SetOf iff SET OF. (Option<> wrapping and list conversions are decided under C05.) \
 Not decided: that the parsed list equals the source list, hoisted inner names for arbitrary nesting.".into();
     ctx.assumptions = vec!["ref/asn1kind_to_rasn.json: ASN.1 kind -> rasn prelude type".into(), "SequenceOrSet / SequenceOrSetOf are shared payloads: SET differs from SEQUENCE only by the marker".into()];
     ctx.rule("pattern-sibling rule over all ASN1Type matches; adaptor whitelist over component-list chains; table extraction");
@@ -24,6 +24,68 @@ Not decided: that the parsed list equals the source list, hoisted inner names fo
     order(m, ctx);
     kindmap(m, ctx);
     wrap(m, ctx);
+    defname(m, ctx);
+}
+
+/// C02.defname: "DEFAULT components carry a default function" — the function named by the `default = "..."` annotation,
+/// the function that is generated, and the function the `Default` impl calls are one name. All three go through
+/// `default_method_name(parent, field)`; the rule checks that every producer calls it with its own parent-name
+/// parameter, and that every fn driving several producers hands them the same parent-name expression.
+fn defname(m: &Model, ctx: &mut Ctx) {
+    // (producer fn, index of the parent-name parameter among the typed parameters)
+    let producers: [(&str, usize); 3] = [("format_sequence_or_set_members", 1), ("format_default_methods", 1), ("format_default_impl", 0)];
+    // 1. each producer reaches default_method_name with its parent-name parameter
+    let param = |f: &crate::model::FnInfo, idx: usize| -> Option<String> {
+        f.sig.inputs.iter().filter_map(|a| match a { syn::FnArg::Typed(t) => Some(tok(&t.pat)), _ => None }).nth(idx)
+    };
+    for (name, idx) in [("format_sequence_member", 1usize), ("format_default_methods", 1), ("format_default_impl", 0)] {
+        let Some(f) = anchor_fn(m, ctx, "C02.defname", Some("Rasn"), name, None) else { continue };
+        ctx.oblige("C02.defname", &format!("{}:uses-default_method_name", name), true);
+        let pn = param(f, idx).unwrap_or_default();
+        let calls: Vec<String> = model::method_calls_in(&f.block).iter().filter(|mc| mc.method == "default_method_name").map(|mc| mc.args.first().map(|a| tok(a)).unwrap_or_default()).collect();
+        if calls.is_empty() {
+            ctx.violate("C02.defname", &format!("{}:uses-default_method_name", name), &f.file, f.line, &format!("{} must name the default function through default_method_name(..) like its siblings", name));
+        } else if calls.iter().any(|c| c.trim_start_matches('&') != pn) {
+            ctx.violate("C02.defname", &format!("{}:parent-parameter", name), &f.file, f.line, &format!("{} calls default_method_name with {:?} as the parent name; it must pass its own parent-name parameter `{}` unchanged", name, calls, pn));
+        }
+    }
+    // the member loop hands its parent name on unchanged
+    if let Some(f) = anchor_fn(m, ctx, "C02.defname", Some("Rasn"), "format_sequence_or_set_members", None) {
+        ctx.oblige("C02.defname", "format_sequence_or_set_members:passes-parent-on", true);
+        let pn = param(f, 1).unwrap_or_default();
+        let ok = model::method_calls_in(&f.block).iter().filter(|mc| mc.method == "format_sequence_member").all(|mc| mc.args.iter().nth(1).map(|a| tok(a).trim_start_matches('&').to_string()) == Some(pn.clone()));
+        if !ok {
+            ctx.violate("C02.defname", "format_sequence_or_set_members:passes-parent-on", &f.file, f.line, "format_sequence_or_set_members must hand its parent name to format_sequence_member unchanged");
+        }
+    }
+    // 2. every driver hands all producers the same parent name
+    let mut drivers = 0;
+    for f in m.fns.iter().filter(|f| f.krate == "rasn-compiler" && f.module.starts_with("generator::rasn") && !f.module.contains("tests")) {
+        let mut given: Vec<(String, String, usize)> = vec![];
+        for mc in model::method_calls_in(&f.block) {
+            for (pname, idx) in producers {
+                if mc.method == pname {
+                    if let Some(a) = mc.args.iter().nth(idx) {
+                        given.push((pname.to_string(), tok(a), model::line_of(syn::spanned::Spanned::span(&mc))));
+                    }
+                }
+            }
+        }
+        if given.len() < 2 {
+            continue;
+        }
+        drivers += 1;
+        ctx.oblige("C02.defname", &format!("{}:same-parent-name", f.name), true);
+        let first = given[0].1.clone();
+        for (pname, a, line) in &given {
+            if *a != first {
+                ctx.violate("C02.defname", &format!("{}:same-parent-name", f.name), &f.file, *line,
+                    &format!("{} names the parent `{}` for {} but `{}` for {}: the default function that is generated and the one that is referred to (annotation / Default impl) get different names whenever the two spellings snake-case differently (e.g. `UE-Config`: ue_config_.. vs ueconfig_..)", f.name, first, given[0].0, a, pname));
+                break;
+            }
+        }
+    }
+    ctx.floor("C02.defname/drivers", drivers, 1);
 }
 
 fn sym(m: &Model, ctx: &mut Ctx) {
